@@ -430,7 +430,7 @@ func usks(r *rand.Rand, w []byte, c *codecGen) [][]byte {
 
 func genCodec(g *Gen) {
 	c := &codecGen{g: g, r: g.Rng}
-	n := g.Scale(150, 4000)
+	n := g.Scale(150, 1000)
 	for i := 0; i < n; i++ {
 		c.round()
 	}
@@ -440,7 +440,7 @@ func genCodec(g *Gen) {
 // byte-level tie is part of those checks.
 func genCodecInto(g *Gen) {
 	c := &codecGen{g: g, r: rand.New(rand.NewSource(g.Seed*7919 + 17))}
-	n := g.Scale(60, 1500)
+	n := g.Scale(40, 400)
 	for i := 0; i < n; i++ {
 		c.round()
 	}
